@@ -1,15 +1,22 @@
 /-
 C10 — dependency container: lazy singletons, fixed precedence, safe failure.
 
-Theorems about `Goat/Model/DI.lean` (the mirror of `/repo/app/dependency/provider.go`).  A history is
-any `List Op` — `Set`/`SetDefault`/`AddFactory`/`AddDefaultFactory`/`Get`/`InjectTo`/`Keys` in any
-order and number, factories with any dependency lists — run from `NewProvider` (`St.empty`);
-`exec` is the state after it, `Get`/`InjectTo` are the calls from outside.  Nothing is bounded.
+Theorems about `Goat/Model/DI.lean` (the mirror of `/repo/app/dependency/provider.go`, of the
+injectors in `/repo/app/injector` and `/repo/app/scope/datascope/injector.go`, and of
+`NewStaticProvider`).  A history is any `List Op` — `Set`/`SetDefault` (with an object or with
+`nil`)/`AddFactory`/`AddDefaultFactory`/`AddInjectors`/`Get`/`InjectTo` (into a struct, or into
+something that is not a pointer to a struct)/`Keys` in any order and number, over names that are any
+texts (the empty one and those beginning with `?` included), factories with any dependency lists,
+injectors with any data — run from `NewProvider` (`St.empty`); `exec` is the state after it,
+`Get`/`InjectTo` are the calls from outside, `InjectOwn` is the part of `InjectTo` the provider does
+itself (before the registered injectors), `toStatic` turns a provider into the one
+`NewStaticProvider` builds from its tables.  Nothing is bounded.
 Helper lemmas are in `Goat/Proofs/DI*.lean`.
 -/
 import Goat.Proofs.DIGood
 import Goat.Proofs.DIPrec
 import Goat.Proofs.DIBlock
+import Goat.Proofs.DIExt
 
 namespace Goat.C10
 open Goat.DI
@@ -28,7 +35,7 @@ def demoDefs : List Op :=
     .addFactory 6 ⟨[⟨3, true, false⟩], .ok⟩ ]
 
 def demoReqs : List Op :=
-  [ .get 1, .get 3, .injectTo [⟨1, true⟩, ⟨0, false⟩], .get 6, .set 9 1, .keys ]
+  [ .get 1, .get 3, .injectTo [.own 1 true, .own 0 false], .get 6, .set 9 1, .keys ]
 
 /-! ### termination and the resolution stack -/
 
@@ -88,34 +95,40 @@ theorem singleton (h h' : List Op) (n : Name) (i : Inst)
 
 example : (Get (exec St.empty demoDefs) 0).2 = .inst (.built 0) := by decide
 
-/-- … and every later injection stores `i` into each field tagged `n` that it reaches. -/
+/-- … and every later injection stores `i` into each field tagged `n` or `?n` that the provider's
+own loop reaches (an object; a `nil` is refused instead, see `nil_definition_inject_refused`). -/
 theorem singleton_inject (h h' : List Op) (n : Name) (i : Inst)
-    (hg : (Get (exec St.empty h) n).2 = .inst i)
-    (fs : List Field) (k : Nat) (fld : Field) (v : Option Inst) (hk : fs[k]? = some fld)
-    (hname : fld.name = n) (hv : (InjectTo (exec St.empty (h ++ .get n :: h')) fs).2.1[k]? = some v) :
+    (hg : (Get (exec St.empty h) n).2 = .inst i) (hnil : i ≠ .nil)
+    (fs : List Field) (k : Nat) (fld : Field) (opt : Bool) (v : Option Inst) (hk : fs[k]? = some fld)
+    (hname : fld.dep = some (n, opt))
+    (hv : (InjectOwn (exec St.empty (h ++ .get n :: h')) fs).2.1[k]? = some v) :
     v = some i := by
   have hinv := inv_exec Inv.empty h
   rw [exec_append] at hv
   have h1 : (step (exec St.empty h) (.get n)).1.instances n = some i := get_inst hg
-  exact InjectTo_of_inst (inv_exec (inv_step hinv _) h')
-    ((grow_exec (inv_step hinv _) h').inst_mono n i h1) fs k fld v hk hname hv
+  exact InjectOwn_of_inst (inv_exec (inv_step hinv _) h')
+    ((grow_exec (inv_step hinv _) h').inst_mono n i h1) hnil fs k fld opt v hk hname hv
 
-example : (InjectTo (exec St.empty (demoDefs ++ .get 0 :: demoReqs)) [⟨2, false⟩, ⟨0, true⟩]).2.1 =
+example : (InjectOwn (exec St.empty (demoDefs ++ .get 0 :: demoReqs)) [.own 2 false, .own 0 true]).2.1 =
     [some (.given 7), some (.built 0)] := by decide
 
 /-- The same when the first answer was an injected field: what a field received is what every later
 `Get` of that name answers. -/
 theorem singleton_from_inject (h h' : List Op) (fs : List Field) (k : Nat) (fld : Field) (i : Inst)
-    (hk : fs[k]? = some fld) (hv : (InjectTo (exec St.empty h) fs).2.1[k]? = some (some i)) :
-    (Get (exec St.empty (h ++ .injectTo fs :: h')) fld.name).2 = .inst i := by
+    (hk : fs[k]? = some fld) (hv : (InjectOwn (exec St.empty h) fs).2.1[k]? = some (some i)) :
+    ∃ n opt, fld.dep = some (n, opt) ∧
+      (Get (exec St.empty (h ++ .injectTo fs :: h')) n).2 = .inst i := by
   have hinv := inv_exec Inv.empty h
+  obtain ⟨n, opt, hd, h1⟩ := InjectOwn_val_inst hinv fs k fld i hk hv
+  refine ⟨n, opt, hd, ?_⟩
   rw [exec_append]
-  have h1 : (step (exec St.empty h) (.injectTo fs)).1.instances fld.name = some i :=
-    InjectTo_val_inst hinv fs k fld i hk hv
+  have h2 : (step (exec St.empty h) (.injectTo fs)).1.instances n = some i := by
+    show (InjectTo _ fs).1.instances n = some i
+    rw [InjectTo_fst]; exact h1
   exact Get_of_inst (inv_exec (inv_step hinv _) h')
-    ((grow_exec (inv_step hinv _) h').inst_mono _ i h1)
+    ((grow_exec (inv_step hinv _) h').inst_mono _ i h2)
 
-example : (InjectTo (exec St.empty demoDefs) [⟨1, true⟩, ⟨0, false⟩]).2.1[1]? = some (some (.built 0)) := by
+example : (InjectOwn (exec St.empty demoDefs) [.own 1 true, .own 0 false]).2.1[1]? = some (some (.built 0)) := by
   decide
 
 /-! ### precedence -/
@@ -139,10 +152,10 @@ theorem explicit_beats_default (defs : List Op) (n : Name) (src : Src)
 example : firstExplicit 0 [.setDefault 0 1, .addDefaultFactory 0 ⟨[], .ok⟩, .addFactory 0 ⟨[], .fail⟩, .set 0 2]
     = some (.fac ⟨[], .fail⟩) := by decide
 
-/-- An explicitly set object is what `Get` returns, whatever defaults were registered before or after. -/
-theorem explicit_instance_returned (defs : List Op) (n : Name) (v : Nat)
-    (hd : ∀ o, o ∈ defs → o.isDef = true) (he : firstExplicit n defs = some (.inst (.given v))) :
-    (Get (exec St.empty defs) n).2 = .inst (.given v) :=
+/-- An explicitly set object (or `nil`) is what `Get` returns, whatever defaults were registered before or after. -/
+theorem explicit_instance_returned (defs : List Op) (n : Name) (i : Inst)
+    (hd : ∀ o, o ∈ defs → o.isDef = true) (he : firstExplicit n defs = some (.inst i)) :
+    (Get (exec St.empty defs) n).2 = .inst i :=
   Get_of_block_inst (inv_exec Inv.empty defs) (source_inst (explicit_beats_default defs n _ hd he))
 
 example : (Get (exec St.empty [.setDefault 0 1, .addDefaultFactory 0 ⟨[], .ok⟩, .set 0 2, .addFactory 0 ⟨[], .fail⟩]) 0).2
@@ -160,8 +173,9 @@ example : source (blockLoop (exec St.empty demoDefs) [4, 2, 0]) 2 = some (.inst 
 
 /-! ### the freeze -/
 
-/-- After the first resolution (a `Get`, or an `InjectTo` with at least one tagged field — successful
-or not) every definition call is refused and changes nothing, for the rest of the history. -/
+/-- After the first resolution (a `Get`, or an `InjectTo` with at least one field that carries the
+provider's tag — successful or not) every definition call — `AddInjectors` included — is refused and
+changes nothing, for the rest of the history. -/
 theorem frozen_after_first_use (h1 h2 : List Op) (r o : Op) (hr : r.isResolution = true)
     (ho : o.isDef = true) :
     step (exec St.empty (h1 ++ r :: h2)) o = (exec St.empty (h1 ++ r :: h2), .refused) := by
@@ -194,9 +208,9 @@ theorem outcome_history_independent (h h' : List Op) (n : Name)
   have hinv := inv_exec Inv.empty h
   rw [exec_append]
   exact Get_iff_good (inv_exec hinv h')
-    (rel_exec h' _ hinv (Rel.refl (block_blocked _)) hcond) n
+    (rel_exec h' _ hinv (Rel.refl (block_blocked _) (by rw [block_callstack]; exact hinv.stack)) hcond) n
 
-example : (Get (exec St.empty (demoDefs ++ [.get 1, .get 3, .injectTo [⟨1, true⟩, ⟨0, false⟩], .get 6])) 0).2.isInst
+example : (Get (exec St.empty (demoDefs ++ [.get 1, .get 3, .injectTo [.own 1 true, .own 0 false], .get 6])) 0).2.isInst
     = true := by decide
 
 /-- Spelled out: two request histories after the same definitions give every name the same outcome. -/
@@ -208,15 +222,16 @@ theorem answers_independent_of_requests (h r1 r2 : List Op) (n : Name)
   cases ha : (Get (exec St.empty (h ++ r1)) n).2.isInst <;>
     cases hb : (Get (exec St.empty (h ++ r2)) n).2.isInst <;> simp_all
 
-/-- A set of names each of which is defined by a factory with a *required* dependency inside the set
+/-- A set of names each of which is defined by a factory with a *required* dependency (`Dep.eff`: the
+name an edge really asks for and whether it tolerates a failure) inside the set
 (every required cycle is one, so is everything that requires its way into a cycle): a `Get` of any
 member from outside returns an error — it does not recurse forever (`get` is total and
 `fuel_sufficient` holds for the history extended by this request) and the error is a real answer,
 not the fuel marker. -/
 theorem cycle_is_error (h h' : List Op) (cyc : List Name)
     (hcond : (∀ o, o ∈ h' → o.isDef = false) ∨ (exec St.empty h).blocked = true)
-    (hc : ∀ c, c ∈ cyc → ∃ f d, source (block (exec St.empty h)) c = some (.fac f) ∧ d ∈ f.deps ∧
-      d.optional = false ∧ d.name ∈ cyc)
+    (hc : ∀ c, c ∈ cyc → ∃ f d m, source (block (exec St.empty h)) c = some (.fac f) ∧ d ∈ f.deps ∧
+      d.eff = some (m, false) ∧ m ∈ cyc)
     (c : Name) (hmem : c ∈ cyc) :
     ∃ e, (Get (exec St.empty (h ++ h')) c).2 = .err e ∧ e ≠ .fuel := by
   have hng : ¬ Good (block (exec St.empty h)) c := fun hg => not_good_of_closed hc hg hmem
@@ -235,28 +250,328 @@ theorem cycle_is_error (h h' : List Op) (cyc : List Name)
     exact get_succ_ne_fuel _ _ _ hres
 
 example : (Get (exec St.empty demoDefs) 4).2 = .err .failed ∧
-    (∀ c, c ∈ [3, 4, 5] → ∃ f d, source (block (exec St.empty demoDefs)) c = some (.fac f) ∧ d ∈ f.deps ∧
-      d.optional = false ∧ d.name ∈ [3, 4, 5]) := by
+    (∀ c, c ∈ ([3, 4, 5] : List Name) → ∃ f d m, source (block (exec St.empty demoDefs)) c = some (.fac f) ∧
+      d ∈ f.deps ∧ d.eff = some (m, false) ∧ m ∈ ([3, 4, 5] : List Name)) := by
   refine ⟨by decide, ?_⟩
   intro c hc
   simp only [List.mem_cons, List.not_mem_nil, or_false] at hc
   rcases hc with rfl | rfl | rfl
-  · exact ⟨⟨[⟨4, false, false⟩], .ok⟩, ⟨4, false, false⟩, by decide, by decide, rfl, by decide⟩
-  · exact ⟨⟨[⟨5, false, true⟩], .ok⟩, ⟨5, false, true⟩, by decide, by decide, rfl, by decide⟩
-  · exact ⟨⟨[⟨3, false, false⟩], .ok⟩, ⟨3, false, false⟩, by decide, by decide, rfl, by decide⟩
+  · exact ⟨⟨[⟨4, false, false⟩], .ok⟩, ⟨4, false, false⟩, 4, by decide, by decide, by decide, by decide⟩
+  · exact ⟨⟨[⟨5, false, true⟩], .ok⟩, ⟨5, false, true⟩, 5, by decide, by decide, by decide, by decide⟩
+  · exact ⟨⟨[⟨3, false, false⟩], .ok⟩, ⟨3, false, false⟩, 3, by decide, by decide, by decide, by decide⟩
 
 /-- The literal form: `cyc[0] → cyc[1] → … → cyc[len-1] → cyc[0]` by required edges. -/
 theorem required_cycle_is_error (h h' : List Op) (cyc : List Name)
     (hcond : (∀ o, o ∈ h' → o.isDef = false) ∨ (exec St.empty h).blocked = true)
     (hc : ∀ (k : Nat) (hk : k < cyc.length), ∃ f d,
-      source (block (exec St.empty h)) cyc[k] = some (.fac f) ∧ d ∈ f.deps ∧ d.optional = false ∧
-      d.name = cyc[(k + 1) % cyc.length]'(Nat.mod_lt _ (Nat.zero_lt_of_lt hk)))
+      source (block (exec St.empty h)) cyc[k] = some (.fac f) ∧ d ∈ f.deps ∧
+      d.eff = some (cyc[(k + 1) % cyc.length]'(Nat.mod_lt _ (Nat.zero_lt_of_lt hk)), false))
     (c : Name) (hmem : c ∈ cyc) :
     ∃ e, (Get (exec St.empty (h ++ h')) c).2 = .err e ∧ e ≠ .fuel := by
   refine cycle_is_error h h' cyc hcond ?_ c hmem
   intro x hx
   obtain ⟨k, hk, rfl⟩ := List.mem_iff_getElem.1 hx
-  obtain ⟨f, d, h1, h2, h3, h4⟩ := hc k hk
-  exact ⟨f, d, h1, h2, h3, h4 ▸ List.getElem_mem _⟩
+  obtain ⟨f, d, h1, h2, h3⟩ := hc k hk
+  exact ⟨f, d, _, h1, h2, h3, List.getElem_mem _⟩
+
+/-! ## the extended operation set
+
+Example material: two `AddInjectors` calls (a map injector for the provider's own tag name `0`, a
+multi injector holding a data-scope injector for tag name `1` and the nil injector; later a second
+map injector for tag name `0`), a factory with an optional `InjectTo` edge, an object, a `nil`
+definition, a definition whose name is `?1` and one whose name is empty. -/
+
+def extDefs : List Op :=
+  [ .addInjectors [.map 0 [(2, .given 50)], .multi [.scope 1 [(7, .given 51), (8, .nil)], .nop]],
+    .addFactory 0 ⟨[⟨1, true, true⟩], .ok⟩,
+    .set 2 5,
+    .setNil 3,
+    .addInjectors [.map 0 [(2, .given 52), (4, .nil)]],
+    .set (Name.opt 1) 6,
+    .set Name.empty 9 ]
+
+/-- the struct `{ A `dependency:"?0"`; B `dependency:"2"`; C `dependency:"?9" t1:"7"`; D `t1:"?8"` }` -/
+def extFields : List Field :=
+  [ .own 0 true, .own 2 false, ⟨[(0, Name.opt 9), (1, 7)]⟩, ⟨[(1, Name.opt 8)]⟩ ]
+
+/-! ### extra injectors -/
+
+/-- The registered injectors never touch the provider: the state after an `InjectTo` — tables, log of
+factory invocations — is the state after the provider's own loop.  A field tagged `n` (or `?n`) of an
+`InjectTo` that returned no error holds the field-wise reading of the injectors applied to the
+singleton `i`: the singleton itself unless a registered injector has a value for that field
+(`extra_injector_order` says which). -/
+theorem injectors_do_not_break_singletons (h h' : List Op) (n : Name) (i : Inst)
+    (hg : (Get (exec St.empty h) n).2 = .inst i) (hnil : i ≠ .nil)
+    (fs : List Field) (k : Nat) (fld : Field) (opt : Bool) (hk : fs[k]? = some fld)
+    (hname : fld.dep = some (n, opt)) :
+    (InjectTo (exec St.empty (h ++ .get n :: h')) fs).1 = (InjectOwn (exec St.empty (h ++ .get n :: h')) fs).1 ∧
+    ((InjectTo (exec St.empty (h ++ .get n :: h')) fs).2.2 = none →
+      (InjectTo (exec St.empty (h ++ .get n :: h')) fs).2.1[k]? =
+        some (pickAll (exec St.empty (h ++ .get n :: h')).injectors fld (some i))) ∧
+    ((InjectTo (exec St.empty (h ++ .get n :: h')) fs).2.2 = none →
+      pickAll (exec St.empty (h ++ .get n :: h')).injectors fld (some i) = some i →
+      (InjectTo (exec St.empty (h ++ .get n :: h')) fs).2.1[k]? = some (some i)) := by
+  have hinv := inv_exec Inv.empty (h ++ .get n :: h')
+  have key : (InjectTo (exec St.empty (h ++ .get n :: h')) fs).2.2 = none →
+      (InjectTo (exec St.empty (h ++ .get n :: h')) fs).2.1[k]? =
+        some (pickAll (exec St.empty (h ++ .get n :: h')).injectors fld (some i)) := by
+    intro hok
+    have hown := own_ok_of_InjectTo_ok hok
+    have hlen := injectFields_length_ok (g := get (fuelFor (exec St.empty (h ++ .get n :: h')))) fs _ hown
+    have hlt : k < fs.length := (List.getElem?_eq_some_iff.1 hk).1
+    obtain ⟨v, hv⟩ : ∃ v, (InjectOwn (exec St.empty (h ++ .get n :: h')) fs).2.1[k]? = some v :=
+      ⟨_, List.getElem?_eq_getElem (by unfold InjectOwn; rw [hlen]; exact hlt)⟩
+    have := singleton_inject h h' n i hg hnil fs k fld opt v hk hname hv
+    subst this
+    rw [InjectTo_pick hinv fs hok k fld hk, hv]
+    rfl
+  exact ⟨InjectTo_fst _ fs, key, fun hok hp => by rw [key hok, hp]⟩
+
+example : (results St.empty (extDefs ++ [.get 0, .injectTo extFields])).getLast? =
+    some (.injected [some (.built 0), some (.given 52), some (.given 51), none] none) := by decide
+
+/- an injector registered for the provider's own tag name must know every REQUIRED field of the struct:
+here the first map injector has no value for `0` and stops the call (the provider's loop has run) -/
+example : (results St.empty (extDefs ++ [.get 0, .injectTo [.own 0 false, .own 2 false]])).getLast? =
+    some (.injected [some (.built 0), some (.given 5)] (some (.injector 0))) := by decide
+
+/-- Which source wins.  After an `InjectTo` that returned no error every field holds: what the
+provider's own loop stored, overwritten by each registered injector that has a value for the field
+(under ITS tag name), in registration order — so the last registered injector with a value wins, and
+any injector with a value beats the provider. -/
+theorem extra_injector_order (h : List Op) (fs : List Field) (k : Nat) (fld : Field)
+    (hk : fs[k]? = some fld) (hok : (InjectTo (exec St.empty h) fs).2.2 = none) :
+    (InjectTo (exec St.empty h) fs).2.1[k]? =
+      some (pickAll (exec St.empty h).injectors fld ((InjectOwn (exec St.empty h) fs).2.1[k]?.join)) :=
+  InjectTo_pick (inv_exec Inv.empty h) fs hok k fld hk
+
+example : (exec St.empty extDefs).injectors =
+    [.map 0 [(2, .given 50)], .multi [.scope 1 [(7, .given 51), (8, .nil)], .nop], .map 0 [(2, .given 52), (4, .nil)]] ∧
+    pickAll (exec St.empty extDefs).injectors (.own 2 false) (some (.given 5)) = some (.given 52) := by
+  constructor <;> rfl
+
+/-- … spelled out: the injector registered last is applied last, and a map injector that has an object
+for the field's key stores it whatever the field held. -/
+theorem extra_injector_last_wins (l : List Injector) (t : TagName) (data : List (Name × Inst)) (fld : Field)
+    (cur : Option Inst) (key : Name) (o : Bool) (x : Inst) (hp : parseTag (fld.raw t) = some (key, o))
+    (hl : lookupData data key = some x) (hx : x ≠ .nil) :
+    pickAll (l ++ [.map t data]) fld cur = some x := by
+  rw [pickAll_append]
+  simp [pickAll, Injector.pick, leafPick, hp, hl, hx]
+
+example : parseTag ((Field.own 2 false).raw 0) = some (2, false) ∧ lookupData [(2, Inst.given 52), (4, .nil)] 2 = some (.given 52) := by
+  decide
+
+/-- `AddInjectors` appends (before the first resolution; afterwards it is refused by `frozen_after_first_use`). -/
+theorem add_injectors_appends (s : St) (l : List Injector) (hb : s.blocked = false) :
+    step s (.addInjectors l) = ({ s with injectors := s.injectors ++ l }, .ok) := by
+  simp [step, accepted, addInjectors, hb]
+
+example : (step St.empty (.addInjectors [.nop, .map 0 []])).1.injectors = [.nop, .map 0 []] := rfl
+
+/-- … and after the first resolution the list of injectors never changes. -/
+theorem injectors_frozen (h1 h2 : List Op) (r : Op) (hr : r.isResolution = true) :
+    (exec St.empty (h1 ++ r :: h2)).injectors = (exec St.empty (h1 ++ [r])).injectors := by
+  have hinv := inv_exec Inv.empty h1
+  rw [exec_append, exec_append]
+  exact (grow_exec (inv_step hinv r) h2).inj_frozen (blocked_of_resolution hinv hr)
+
+example : (results St.empty (extDefs ++ [.get 0, .addInjectors [.nop]])).getLast? = some .refused := by decide
+
+/-! ### the static provider -/
+
+/-- For every provider state reached by any history, every order in which `NewStaticProvider` may
+range over the factory map (any list containing every key), and every further history `rs` without
+`Keys`: the static provider answers exactly like the original after `Block` — the same results
+(accepted/refused, instances, injected structs, errors), and the same log of factory invocations, so
+no factory runs that the original would not run and none runs twice. -/
+theorem static_provider_agrees (h : List Op) (order : List Name) (rs : List Op)
+    (hord : ∀ n, mergedFactories (block (exec St.empty h)) n ≠ none → n ∈ order)
+    (hk : ∀ o, o ∈ rs → o.isKeys = false) :
+    results (toStatic (exec St.empty h) order) rs = results (block (exec St.empty h)) rs ∧
+    (exec (toStatic (exec St.empty h) order) rs).log = (exec (block (exec St.empty h)) rs).log ∧
+    (exec (toStatic (exec St.empty h) order) rs).instances = (exec (block (exec St.empty h)) rs).instances := by
+  have hinv := inv_exec Inv.empty h
+  obtain ⟨r1, r2⟩ := results_sim rs _ _ (sim_toStatic hinv order) hinv.block (inv_toStatic hinv order hord) hk
+  exact ⟨r1.symm, r2.log, r2.instances⟩
+
+example : results (toStatic (exec St.empty demoDefs) [6, 5, 4, 3, 2, 1, 0]) (demoReqs.filter fun o => !o.isKeys) =
+    results (block (exec St.empty demoDefs)) (demoReqs.filter fun o => !o.isKeys) := by decide
+
+/-- Where it differs: `Keys` of a static provider lists the names that have a factory (explicit or
+default) in the order of the `range`, not the names defined by an instance only; it never changes. -/
+theorem static_provider_keys (h : List Op) (order : List Name) (rs : List Op)
+    (hord : ∀ n, mergedFactories (block (exec St.empty h)) n ≠ none → n ∈ order) :
+    Keys (exec (toStatic (exec St.empty h) order) rs) =
+      order.filter fun k => (mergedFactories (block (exec St.empty h)) k).isSome := by
+  have hinv := inv_toStatic (inv_exec Inv.empty h) order hord
+  exact (grow_exec hinv rs).keys_frozen rfl
+
+example : Keys (toStatic (exec St.empty demoDefs) [6, 5, 4, 3, 2, 1, 0]) = [6, 5, 4, 3, 1, 0] ∧
+    Keys (toStatic (exec St.empty extDefs) (Keys (exec St.empty extDefs))) = [0] ∧
+    Keys (exec St.empty extDefs) = [0, 2, 3, Name.opt 1, Name.empty] := by decide
+
+/-- A static provider refuses every definition call and `AddInjectors`, from the start and for ever. -/
+theorem static_provider_frozen (h : List Op) (order : List Name) (rs : List Op) (o : Op)
+    (hord : ∀ n, mergedFactories (block (exec St.empty h)) n ≠ none → n ∈ order) (ho : o.isDef = true) :
+    step (exec (toStatic (exec St.empty h) order) rs) o =
+      (exec (toStatic (exec St.empty h) order) rs, .refused) :=
+  step_def_blocked (blocked_exec (inv_toStatic (inv_exec Inv.empty h) order hord) rfl rs) ho
+
+example : results (toStatic (exec St.empty demoDefs) [6, 5, 4, 3, 2, 1, 0]) [.set 9 1, .get 0, .addInjectors []] =
+    [.refused, .got (.inst (.built 0)), .refused] := by decide
+
+/-- … and keeps the guarantees of the original for any history run on it: the stack is empty after
+every request, the fuel suffices, no name is built twice, nothing is re-run after it delivered. -/
+theorem static_provider_safe (h : List Op) (order : List Name) (rs : List Op)
+    (hord : ∀ n, mergedFactories (block (exec St.empty h)) n ≠ none → n ∈ order) :
+    (exec (toStatic (exec St.empty h) order) rs).callstack = [] ∧
+    (exec (toStatic (exec St.empty h) order) rs).exhausted = false ∧
+    (successes (exec (toStatic (exec St.empty h) order) rs).log).Nodup ∧
+    NoRerun (exec (toStatic (exec St.empty h) order) rs).log := by
+  have hinv := inv_exec (inv_toStatic (inv_exec Inv.empty h) order hord) rs
+  exact ⟨hinv.stack, hinv.notex, hinv.nodup, hinv.norerun⟩
+
+example : (exec (toStatic (exec St.empty demoDefs) [6, 5, 4, 3, 2, 1, 0]) demoReqs).callstack = [] ∧
+    successes (exec (toStatic (exec St.empty demoDefs) [6, 5, 4, 3, 2, 1, 0]) demoReqs).log = [0, 6] := by decide
+
+/-- the order the driver uses (`Keys` of the original) lists every key of the factory map -/
+theorem static_order_keys (h : List Op) (n : Name)
+    (hn : mergedFactories (block (exec St.empty h)) n ≠ none) : n ∈ Keys (exec St.empty h) := by
+  have hinv := (inv_exec Inv.empty h).block
+  have hk : (block (exec St.empty h)).keys = (exec St.empty h).keys := block_keys _
+  unfold Keys
+  rw [← hk]
+  cases hm : mergedFactories (block (exec St.empty h)) n with
+  | none => exact absurd hm hn
+  | some f => exact merged_keys hinv.fuelOK hm
+
+/- so the hypothesis `hord` of the four theorems above is satisfiable for every history -/
+example : ∀ n, mergedFactories (block (exec St.empty demoDefs)) n ≠ none → n ∈ Keys (exec St.empty demoDefs) :=
+  static_order_keys demoDefs
+
+/-! ### nil definitions -/
+
+/-- `Set(n, nil)` and `SetDefault(n, nil)` are accepted under exactly the conditions under which an
+object is, and define the name (it is listed by `Keys`, it blocks later definitions of the same kind). -/
+theorem nil_definition_accepted (s : St) (n : Name) (v : Nat) :
+    (step s (.setNil n)).2 = (step s (.set n v)).2 ∧
+    (step s (.setNil n)).1.keys = (step s (.set n v)).1.keys ∧
+    (step s (.setDefaultNil n)).2 = (step s (.setDefault n v)).2 ∧
+    (step s (.setDefaultNil n)).1.keys = (step s (.setDefault n v)).1.keys := by
+  refine ⟨?_, ?_, ?_, ?_⟩
+  · cases h0 : s.blocked <;> cases h1 : (s.instances n).isSome <;> cases h2 : (s.factories n).isSome <;>
+      simp [step, accepted, DI.set, h0, h1, h2]
+  · cases h0 : s.blocked <;> cases h1 : (s.instances n).isSome <;> cases h2 : (s.factories n).isSome <;>
+      simp [step, accepted, DI.set, h0, h1, h2]
+  · cases h0 : s.blocked <;> cases h1 : (s.defaultInstances n).isSome <;>
+      cases h2 : (s.defaultFactories n).isSome <;> simp [step, accepted, setDefault, h0, h1, h2]
+  · cases h0 : s.blocked <;> cases h1 : (s.defaultInstances n).isSome <;>
+      cases h2 : (s.defaultFactories n).isSome <;> simp [step, accepted, setDefault, h0, h1, h2]
+
+example : results St.empty [.setNil 3, .setNil 3, .set 3 1, .setDefaultNil 3, .keys] =
+    [.ok, .refused, .refused, .ok, .keys [3]] := by decide
+
+/-- A name whose definition in force is `nil`: `Get` answers `nil` without an error, now and for ever. -/
+theorem nil_definition_returned (defs h' : List Op) (n : Name)
+    (hd : ∀ o, o ∈ defs → o.isDef = true) (he : firstExplicit n defs = some (.inst .nil)) :
+    (Get (exec St.empty defs) n).2 = .inst .nil ∧
+    (Get (exec St.empty (defs ++ .get n :: h')) n).2 = .inst .nil :=
+  ⟨explicit_instance_returned defs n .nil hd he,
+   singleton defs h' n .nil (explicit_instance_returned defs n .nil hd he)⟩
+
+example : firstExplicit 3 extDefs = some (.inst .nil) ∧ (Get (exec St.empty extDefs) 3).2 = .inst .nil := by decide
+
+/-- … but `InjectTo` refuses to store it: a field that names it — required or OPTIONAL — stops the
+call with an error; that field and every later one stay untouched and no injector runs. -/
+theorem nil_definition_inject_refused (h h' : List Op) (n : Name)
+    (hg : (Get (exec St.empty h) n).2 = .inst .nil)
+    (fld : Field) (opt : Bool) (hd : fld.dep = some (n, opt)) (rest : List Field) :
+    (InjectTo (exec St.empty (h ++ .get n :: h')) (fld :: rest)).2 =
+      (pad (rest.length + 1) [], some .nilDependency) := by
+  have hinv := inv_exec Inv.empty h
+  have h1 : (step (exec St.empty h) (.get n)).1.instances n = some .nil := get_inst hg
+  have h2 : (exec St.empty (h ++ .get n :: h')).instances n = some .nil := by
+    rw [exec_append]
+    exact (grow_exec (inv_step hinv _) h').inst_mono n _ h1
+  exact InjectTo_nil_head (inv_exec Inv.empty _) hd h2 rest
+
+example : (results St.empty (extDefs ++ [.get 3, .injectTo [.own 3 true, .own 2 false]])).getLast? =
+    some (.injected [none, none] (some .nilDependency)) := by decide
+
+/-! ### names and tags as text -/
+
+/-- The tag handling, exactly: `?n` is the optional request for `n` (one `?` is stripped, not more),
+the empty tag skips the field, any other tag is the required request for itself.  Hence a required
+request is never for the empty name nor for a name beginning with `?`. -/
+theorem optional_prefix_exact :
+    (∀ n : Name, parseTag n.opt = some (n, true)) ∧
+    parseTag Name.empty = none ∧
+    (∀ (c : Nat) (cs : List Nat), c ≠ qmark → parseTag ⟨c :: cs⟩ = some (⟨c :: cs⟩, false)) ∧
+    (∀ raw n : Name, parseTag raw = some (n, false) → raw = n ∧ ∃ c cs, n.chars = c :: cs ∧ c ≠ qmark) := by
+  refine ⟨fun n => by simp [parseTag, Name.opt], rfl, fun c cs hc => by simp [parseTag, hc], ?_⟩
+  intro raw n h
+  obtain ⟨chars⟩ := raw
+  cases chars with
+  | nil => simp [parseTag] at h
+  | cons c cs =>
+    by_cases hc : c = qmark
+    · simp [parseTag, hc] at h
+    · simp only [parseTag, hc, if_false, Option.some.injEq, Prod.mk.injEq, and_true] at h
+      subst h
+      exact ⟨rfl, c, cs, rfl, hc⟩
+
+example : parseTag (Name.opt (Name.opt 1)) = some (Name.opt 1, true) ∧ parseTag (Name.opt Name.empty) = some (Name.empty, true) := by
+  decide
+
+/-- A definition whose name is empty or begins with `?` is an ordinary definition for `Get` (which
+uses its argument literally — `explicit_wins` and all the other theorems quantify over such names
+too), but a struct field reaches it only as an OPTIONAL dependency, through the tag `?` + its name. -/
+theorem question_names_reachable_only_optionally (fld : Field) (n : Name) (o : Bool)
+    (h : fld.dep = some (n, o)) (hq : n = Name.empty ∨ ∃ m : Name, n = m.opt) :
+    o = true ∧ fld.raw ownTag = n.opt := by
+  unfold Field.dep at h
+  generalize fld.raw ownTag = raw at h
+  obtain ⟨chars⟩ := raw
+  cases chars with
+  | nil => simp [parseTag] at h
+  | cons c cs =>
+    by_cases hc : c = qmark
+    · simp only [parseTag, hc, if_true, Option.some.injEq, Prod.mk.injEq] at h
+      obtain ⟨h1, h2⟩ := h
+      subst h1; subst h2
+      exact ⟨rfl, by simp [Name.opt, hc]⟩
+    · simp only [parseTag, hc, if_false, Option.some.injEq, Prod.mk.injEq] at h
+      obtain ⟨h1, _⟩ := h
+      subst h1
+      rcases hq with hq | ⟨m, hq⟩
+      · simp [Name.empty] at hq
+      · simp only [Name.opt, Name.mk.injEq, List.cons.injEq] at hq
+        exact absurd hq.1 hc
+
+example : (Get (exec St.empty extDefs) (Name.opt 1)).2 = .inst (.given 6) ∧
+    (Get (exec St.empty extDefs) Name.empty).2 = .inst (.given 9) ∧
+    (InjectTo (exec St.empty extDefs) [.own (Name.opt 1) true, .own Name.empty true, .own (Name.opt 1) false]).2 =
+      ([some (.given 6), some (.given 9), none], none) := by decide
+
+/-! ### panics -/
+
+/-- The only call of the extended operation set that panics is an `InjectTo` whose argument is not a
+pointer to a struct (the reflection calls panic before the provider is touched); it leaves the
+provider as it was.  Everything else — `nil` definitions, empty and `?` names, any injector data, any
+static provider — answers. -/
+theorem no_panic (s : St) (o : Op) :
+    ((step s o).2 = .panic ↔ o = .injectBad) ∧ (step s .injectBad).1 = s :=
+  ⟨step_panic_iff s o, rfl⟩
+
+example : (step (exec St.empty extDefs) .injectBad).2 = .panic := rfl
+
+/-- … for whole histories, from any state (a static provider included). -/
+theorem no_panic_history (s : St) (h : List Op) : .panic ∈ results s h ↔ .injectBad ∈ h :=
+  results_panic_iff h s
+
+example : results St.empty (extDefs ++ [.injectBad, .get 0]) =
+    results St.empty extDefs ++ [.panic, .got (.inst (.built 0))] := by decide
 
 end Goat.C10
